@@ -231,6 +231,29 @@ def gen(rng, tier):
         shape = rng.choice(["0 1 2", "0 2 1", "1 1 2", "2 1 2", "0 1 1", "1 1 1", "2 2 1"])
         opn = rng.choice(["Mul", "Quo"])
         yield dict(family="mulquo", vars=[z, x, y], ops=["%s %s" % (opn, shape)])
+    # (ii-e) far sticky for Set/Neg/Abs/SetPrec and exact-looking long quotients: kept digits, then [0 | 5] 0...0 (19-60 zeros), then a digit
+    for _ in range(200 * n):
+        p = rng.choice([1, 2, 5, 18, 19, 20, 34, 38])
+        head = common.rand_coeff(rng, p)
+        head *= 10 ** (p - ndigits(head))
+        k = rng.choice([18, 19, 20, 36, 37, 38, 39, 56, 57, 60])
+        mid = rng.choice(["0", "5", "0", "5", "4", "9"])
+        v = int(str(head) + mid + "0" * k + rng.choice(["1", "1", "7", "0"]))
+        md = rng.choice([0, 0, 1, 1, 2, 3, 4, 5])
+        if rng.random() < 0.5:
+            x = fin(v, rng.randint(-30, 30), neg=rng.randint(0, 1), mode=rng.randint(0, 5), pad=rng.choice([0, 0, 1]))
+            z = recv(rng, prec=p, mode=md)
+            op = rng.choice(["Set 0 1", "Neg 0 1", "Abs 0 1", "Copy 0 1 ; O SetMode 0 %d ; O SetPrec 0 %d" % (md, p), "Add 0 1 2", "Mul 0 1 3"])
+            yield dict(family="far-sticky-set", vars=[z, x, zero(0, prec=3), fin(1, 0)], ops=[o.strip() for o in op.split("; O")])
+        else:
+            # x = v * y * 10^(19 m): the quotient x / y is v exactly; the dividend is long with zero low words
+            yv = rng.choice([2, 4, 7, 3 * 10**18 + 1, common.rand_coeff(rng, 25)])
+            m_ = rng.choice([0, 1, 2, 3])
+            xv = v * yv * 10 ** (19 * m_) + (rng.choice([0, 0, 10 ** 19, 3 * 10 ** 19]) if m_ >= 2 else 0)
+            x = fin(xv, rng.randint(-30, 30), neg=rng.randint(0, 1), pad=rng.choice([0, 1]))
+            y = fin(yv, rng.randint(-5, 5), neg=rng.randint(0, 1))
+            z = recv(rng, prec=p, mode=md)
+            yield dict(family="far-sticky-quo", vars=[z, x, y], ops=["Quo 0 1 2"])
     # (iii-b) Mul / Quo with the result exponent exactly at, just inside and just outside the range
     for _ in range(160 * n):
         MINE, MAXE = -2**31, 2**31 - 1
